@@ -189,6 +189,7 @@ class Client:
         rparts = [self._mk_reward(p, (i,)) for i, p in enumerate(spec['rewards'])]
         reward = functools.partial(reward_fs.reward_function_registry['reduce_sum'], reward_functions=rparts)
         terminating = self._mk_term(spec['term'], ())
+        self.rparts, self.tfun = rparts, terminating
         area = area_of(spec['obs']['area'])
         okw = {k: v for k, v in spec['obs'].items() if k not in ('name', 'area')}
         if via_factory:
